@@ -38,6 +38,21 @@ type bucketObject struct {
 	versions *skiplist.SkipList
 }
 
+// popNewestVersion removes the most recently created noncurrent version and
+// returns it so that it can become the current one (nil if there is none).
+// Version IDs sort in creation order.
+func (b *bucketObject) popNewestVersion() *bucketData {
+	if b.versions == nil || b.versions.Len() == 0 {
+		return nil
+	}
+	var newest *bucketData
+	for iter := b.versions.Iterator(); iter.Next(); {
+		newest = iter.Value().(*bucketData)
+	}
+	b.versions.Delete(newest.versionID)
+	return newest
+}
+
 func (b *bucketObject) Iterator() *bucketObjectIterator {
 	var iter skiplist.Iterator
 	if b.versions != nil {
@@ -259,7 +274,7 @@ func (b *bucket) rmVersion(name string, versionID gofakes3.VersionID, at time.Ti
 	} else if object.data != nil && object.data.versionID == versionID {
 		result.VersionID = versionID
 		result.IsDeleteMarker = object.data.deleteMarker
-		object.data = nil
+		object.data = object.popNewestVersion()
 
 	} else if object.versions != nil {
 		versionIface, ok := object.versions.Delete(versionID)
